@@ -364,14 +364,18 @@ func (f *Frame) appendOp(x *ssa.Call, c *ssa.CallCommon, pos string) Val {
 	newLen := plus(sLen, n)
 	inplace := s.freshConst("inplace", "Bool")
 	s.fact(eq(inplace, and(app("<=", newLen, sCap), not(eq(sRef, "0")))))
-	// n == 0 returns s itself (also when s is nil)
+	// A reallocating append is modelled as a copy of the whole old backing array into a fresh object with the same offset
+	// (cells outside the slice's window are unobservable through the new slice; assumption: code does not reslice beyond len after append
+	// expecting zeroes). This keeps append free of quantifiers for a constant number of appended elements.
 	nref := f.newRef()
 	s.freshRefs[nref] = true
 	ncap := s.freshConst("cap", "Int")
 	s.fact(and(app(">=", ncap, newLen), app("<=", ncap, app("+", app("*", "2", newLen), "8"))))
 	res := s.freshConst(qsymBase("app"), "Slice")
-	s.fact(eq(res, ite(eq(n, "0"), sl, ite(inplace, app("mk-slice", sRef, sOff, newLen, sCap), app("mk-slice", nref, "0", newLen, ncap)))))
-	rRef, rOff := sliceField("s.ref", res), sliceField("s.off", res)
+	rRef := s.freshConst("appref", "Int")
+	s.fact(eq(rRef, ite(inplace, sRef, nref)))
+	s.fact(eq(res, ite(eq(n, "0"), sl, app("mk-slice", rRef, sOff, newLen, ite(inplace, sCap, ncap)))))
+	s.assume("append that reallocates: cells of the new backing array beyond the slice's length are not observed as zero")
 	// frame: an in-place append writes into the old backing array
 	if !s.freshRefs[sRef] {
 		if !f.dry {
@@ -392,27 +396,21 @@ func (f *Frame) appendOp(x *ssa.Call, c *ssa.CallCommon, pos string) Val {
 		}
 		as := arrSort("Int", arrSort("Int", srt))
 		old := f.heapGet(key, as)
-		nw := s.freshConst(qsymBase("H:"+key), as)
-		// other objects unchanged
-		s.fact(fmt.Sprintf("(forall ((r Int)) (! (=> (not (= r %s)) (= (select %s r) (select %s r))) :pattern ((select %s r))))", rRef, nw, old, nw))
-		// the result's prefix equals s (quantified over the absolute index so that any read of the new array triggers it)
-		s.fact(fmt.Sprintf("(forall ((i Int)) (! (=> (and (<= %s i) (< i (+ %s %s))) (= (select (select %s %s) i) (select (select %s %s) (+ %s (- i %s))))) :pattern ((select (select %s %s) i))))",
-			rOff, rOff, sLen, nw, rRef, old, sRef, sOff, rOff, nw, rRef))
-		// appended elements
+		base := app("select", old, sRef)
 		if k, ok := smallConst(n); ok {
+			inner := base
 			for j := 0; j < k; j++ {
-				js := num(int64(j))
-				s.fact(eq(app("select", app("select", nw, rRef), plus(plus(rOff, sLen), js)), app("select", app("select", old, tRef), plus(tOff, js))))
+				inner = app("store", inner, plus(plus(sOff, sLen), num(int64(j))), app("select", app("select", old, tRef), plus(tOff, num(int64(j)))))
 			}
-		} else {
-			s.fact(fmt.Sprintf("(forall ((i Int)) (! (=> (and (<= (+ %s %s) i) (< i (+ %s %s %s))) (= (select (select %s %s) i) (select (select %s %s) (+ %s (- i (+ %s %s)))))) :pattern ((select (select %s %s) i))))",
-				rOff, sLen, rOff, sLen, n, nw, rRef, old, tRef, tOff, rOff, sLen, nw, rRef))
+			if k > 0 {
+				f.heapSet(key, as, app("store", old, rRef, inner))
+			}
+			continue
 		}
-		// in place: cells of the same array outside the appended window are unchanged
-		s.fact(implies(inplace, fmt.Sprintf("(forall ((j Int)) (! (=> (or (< j (+ %s %s)) (>= j (+ %s %s))) (= (select (select %s %s) j) (select (select %s %s) j))) :pattern ((select (select %s %s) j))))",
-			sOff, sLen, sOff, newLen, nw, sRef, old, sRef, nw, sRef)))
-		f.cur.heap[key] = nw
-		s.sorts[key] = as
+		inner := s.freshConst(qsymBase("apparr"), arrSort("Int", srt))
+		s.fact(fmt.Sprintf("(forall ((i Int)) (! (= (select %s i) (ite (and (<= (+ %s %s) i) (< i (+ %s %s %s))) (select (select %s %s) (+ %s (- i (+ %s %s)))) (select %s i))) :pattern ((select %s i))))",
+			inner, sOff, sLen, sOff, sLen, n, old, tRef, tOff, sOff, sLen, base, inner))
+		f.heapSet(key, as, ite(eq(n, "0"), old, app("store", old, rRef, inner)))
 	}
 	return S{res, x.Type()}
 }
